@@ -112,8 +112,17 @@ func c04r1(c *Ctx) {
 
 func c04r2(c *Ctx) {
 	r := getChainRoles(c.P)
-	ls := NewLockset(c.P, r.mu, r.methods)
+	// the Manager's methods with their helpers expanded, so a listener slice
+	// built in one helper and invoked in another is followed
+	var methods []*ir.Func
 	for _, f := range r.methods {
+		methods = append(methods, r.view(f))
+	}
+	ls := NewLocksetV(c.P, r.mu, methods, r.view)
+	for _, f := range methods {
+		if r.vs.Absorbed[f.Base] {
+			continue
+		}
 		t := listenerTaint(r, f, r.onReorg, r.onPool)
 		calls := listenerCalls(f, t)
 		for _, n := range calls {
